@@ -1,4 +1,6 @@
 """C10 - a failed operation changes nothing (differential twin)."""
+import itertools
+
 from hypothesis import strategies as st
 
 from .. import gen
@@ -12,7 +14,7 @@ RULE = ('histories in which ops fail for every listed reason (wrong / foreign ch
         'bad forward, remove / replace of a non-child - never attached, a child of a held child, or a child of another '
         'element, which must itself stay as it was -, invalid attribute name or value, invalid value, xml_* with bad '
         'value or unknown name, to_string on incomplete children / attributes): (a) ALL histories of <=3 ops over add '
-        '/ remove / dot-None / to_string on a deterministic symbol subset of every type, (b) Hypothesis-drawn adaptive '
+        '/ remove / dot-None / to_string on a deterministic symbol subset of every type, (a2) for all a, b, c of the subset where c is refused after a, b: the refused add followed by the removal of a or b, with c probed again, (b) Hypothesis-drawn adaptive '
         'histories steered so that failures happen after duplication and after intelligent-choice attempts.  '
         'Differential twin: A runs the history, B runs it with the ops that raised on A replaced by no-ops; after '
         'EVERY step obs(A)==obs(B) (both child views by identity label, attributes, value); at the first failure point '
@@ -142,6 +144,23 @@ def run_shard(ctx, shard, acc):
                 acc.case({'element': els[0], 'ops': ops}, nontrivial(ops, failed), len(ops))
                 if f:
                     acc.fail(f, raise_=False)
+            # a refused addition, then a removal, then the refused child is offered again: whether it is taken now
+            # must not depend on the refused attempt having been made (all a, b, c of the subset with c refused)
+            from ..driver import fresh
+            for a, b, c in itertools.product(symbol_subset(t, 12), repeat=3):
+                r0 = call(fresh, els[0])
+                if not r0.ok:
+                    break
+                if not (call(r0.value.add_child, stub(a)).ok and call(r0.value.add_child, stub(b)).ok) or \
+                        call(r0.value.add_child, stub(c)).ok:
+                    continue
+                for i in (0, 1):
+                    ops = [['add', a], ['add', b], ['add', c], ['remove', i]]
+                    A, f, failed = check(els[0], ops, [c])
+                    acc.case({'element': els[0], 'ops': ops}, nontrivial(ops, failed), 4)
+                    acc.count('refused-then-removal')
+                    if f:
+                        acc.fail(f, raise_=False)
         return
     te = gen.types_and_elements(all_elements=not ctx.quick)
     maxops = 10 if ctx.quick else 24
